@@ -52,4 +52,103 @@ def d14_python_version_in_substring(sig):
     return False
 
 
-PREDICATES = {f.__name__: f for f in (d3_compatible_release_with_post_bound, d14_python_version_in_substring)}
+_VERSION_VARS = ("python_full_version", "python_version", "platform_release", "implementation_version")
+
+
+def _interval_atom(var, op, lit, env):
+    """a version atom read in the library's interval model: plain position in the PEP 440 total order, without the rule that `< V` excludes the
+    pre-releases of V and `> V` its post-releases; None when the atom is not a plain version comparison"""
+    try:
+        v = Version(str(env[var]))
+        if lit.endswith(".*") and op in ("==", "!="):
+            rel = [int(x) for x in lit[:-2].split(".")]
+            lo, hi = Version(".".join(map(str, rel)) + ".dev0"), Version(".".join(map(str, rel[:-1] + [rel[-1] + 1])) + ".dev0")
+            inside = lo <= v < hi
+            return inside if op == "==" else not inside
+        b = Version(lit)
+    except Exception:  # noqa: BLE001
+        return None
+    if op == "~=":
+        rel = list(b.release)
+        if len(rel) < 2:
+            return None
+        hi = Version(f"{b.epoch}!" + ".".join(map(str, rel[:-2] + [rel[-2] + 1])))
+        return b <= v < hi
+    table = {"<": v < b, "<=": v <= b, ">": v > b, ">=": v >= b, "==": v == b, "!=": v != b}
+    return table.get(op)
+
+
+def _interval_eval(tree, env):
+    """packaging's parsed marker tree evaluated with version atoms in the interval model and every other atom by packaging itself"""
+    from packaging.markers import Marker, Value, Variable
+    mirror = {"<": ">", "<=": ">=", ">": "<", ">=": "<=", "==": "==", "!=": "!=", "~=": "~="}
+    groups, cur = [], []
+    for item in tree:
+        if isinstance(item, str):
+            if item == "or":
+                groups.append(cur)
+                cur = []
+            continue
+        if isinstance(item, list):
+            cur.append(_interval_eval(item, env))
+            continue
+        lhs, op, rhs = item
+        val = None
+        if isinstance(lhs, Variable) and isinstance(rhs, Value) and lhs.value in _VERSION_VARS:
+            val = _interval_atom(lhs.value, op.value, rhs.value, env)
+        elif isinstance(rhs, Variable) and isinstance(lhs, Value) and rhs.value in _VERSION_VARS and op.value in mirror:
+            val = _interval_atom(rhs.value, mirror[op.value], lhs.value, env)
+        if val is None:
+            q = lambda x: x.value if isinstance(x, Variable) else '"' + x.value + '"'      # noqa: E731
+            val = Marker(f"{q(lhs)} {op.value} {q(rhs)}").evaluate(env)
+        cur.append(val)
+    groups.append(cur)
+    return any(all(g) for g in groups)
+
+
+def d22_interval_model_on_nonfinal_environment(sig):
+    """The environment's value of a version-valued variable is a pre-, post- or dev-release, the marker has two or more atoms on that variable, the
+    library's rewriting of the marker (`rendered`, recorded by the suite) means the same as the original *in the interval model* of the specifier
+    algebra (position in the PEP 440 total order, without the rule that `< V` excludes the pre-releases of V and `> V` its post-releases) on this
+    environment, and the library's answer is what packaging gives on that rewriting.  I.e. the only discrepancy is that merging preserved the
+    interval meaning but not PEP 440's exclusion rules.  Anything else the library answers on such an environment is still reported."""
+    from packaging.markers import Marker
+    inp = sig.get("input") or {}
+    env = inp.get("env") or {}
+    observed, expected, rendered = sig.get("observed"), sig.get("expected"), inp.get("rendered")
+    if not isinstance(observed, bool) or not isinstance(expected, bool) or observed == expected or not isinstance(rendered, str):
+        return False
+    nonfinal = []
+    for var in _VERSION_VARS:
+        if var in env:
+            try:
+                ver = Version(str(env[var]))
+            except Exception:  # noqa: BLE001
+                continue
+            if ver.is_prerelease or ver.is_postrelease or ver.is_devrelease:
+                nonfinal.append(var)
+    if not nonfinal:
+        return False
+    if "text" in inp:
+        text = inp["text"]
+    elif "a" in inp and "b" in inp and inp.get("op") in ("and", "or"):
+        text = f"({inp['a']}) {inp['op']} ({inp['b']})"
+    else:
+        return False
+    if not any(len(re.findall(r"\b%s\b" % var, text)) >= 2 for var in nonfinal):
+        return False
+    e = {k: (set(v) if isinstance(v, list) else v) for k, v in env.items()}
+
+    def both(t):
+        if t == "":
+            return True, True
+        if t == "<empty>":
+            return False, False
+        mk = Marker(t)
+        return mk.evaluate(e), _interval_eval(mk._markers, e)
+    pk_rendered, iv_rendered = both(rendered)
+    return observed == pk_rendered and _interval_eval(Marker(text)._markers, e) == iv_rendered
+
+
+PREDICATES = {f.__name__: f for f in (d3_compatible_release_with_post_bound, d14_python_version_in_substring, d22_interval_model_on_nonfinal_environment)}
+
